@@ -194,9 +194,9 @@ theorem header_only_consumes_header (P : Profile) (o : Opts) (g : Globals) (data
     the File it returns has the file_id, file_creator, timestamp_correlation, container and slots
     (every message of every complete record, nothing of the cut one) that the item machine holds
     after `done`; the accumulators too. -/
-theorem partial_file_on_cut (P : Profile) (hwf : ProfileWF P = true) (o : Opts) (k : HdrKind) (g : Globals) (proto profile : Nat)
+theorem partial_file_on_cut_spec (P : Profile) (hwf : ProfileWF P = true) (o : Opts) (k : HdrKind) (g : Globals) (proto profile : Nat)
     (d0 : DefMsg) (b0 : Bool) (fs dev : List Bytes) (done : List Item) (it : Item) (more : List Item) (j : Nat)
-    (r : Reader) (st1 : DecSt)
+    (data : Bytes) (stop : Stop) (st1 : DecSt)
     (hp : proto < 256) (hp2 : proto / 16 ≤ protoMajorMax)
     (hwf0 : DefnWF d0 b0) (hg : d0.global = mnFileId) (hkn : P.known mnFileId = true)
     (hlen : (serialize (.defn d0 b0 :: .data d0.localT fs dev :: (done ++ it :: more))).length < 4294967296)
@@ -207,12 +207,12 @@ theorem partial_file_on_cut (P : Profile) (hwf : ProfileWF P = true) (o : Opts) 
       (afterHeader k g proto profile
       (serialize (.defn d0 b0 :: .data d0.localT fs dev :: (done ++ it :: more))).length).crc = .ok st1)
     (hj : j < (serializeItem it).length)
-    (hdata : r.data = (frameBytesK k proto profile (serialize (.defn d0 b0 :: .data d0.localT fs dev :: (done ++ it :: more)))).take
+    (hdata : data = (frameBytesK k proto profile (serialize (.defn d0 b0 :: .data d0.localT fs dev :: (done ++ it :: more)))).take
       (k.size + ((serialize (.defn d0 b0 :: .data d0.localT fs dev :: done)).length + j))) :
-    (decode P o .full g r).1.err.isSome = true ∧ (decode P o .full g r).1.panic = false ∧
-    (decode P o .full g r).1.st.glob = st1.glob ∧
-    ∀ F1, st1.file = some F1 → ∃ F', (decode P o .full g r).1.st.file = some F' ∧ F'.sameContent F1 := by
-  rw [decode_out_eq_spec, hdata]
+    (decodeSpec P o .full g data stop).1.err.isSome = true ∧ (decodeSpec P o .full g data stop).1.panic = false ∧
+    (decodeSpec P o .full g data stop).1.st.glob = st1.glob ∧
+    ∀ F1, st1.file = some F1 → ∃ F', (decodeSpec P o .full g data stop).1.st.file = some F' ∧ F'.sameContent F1 := by
+  rw [hdata]
   have hser : serialize (.defn d0 b0 :: .data d0.localT fs dev :: (done ++ it :: more)) =
       serialize (.defn d0 b0 :: .data d0.localT fs dev :: done) ++ (serializeItem it ++ serialize more) := by
     have : (Item.defn d0 b0 :: Item.data d0.localT fs dev :: (done ++ it :: more)) =
@@ -229,11 +229,11 @@ theorem partial_file_on_cut (P : Profile) (hwf : ProfileWF P = true) (o : Opts) 
       List.take_of_length_le (by omega : (serialize (.defn d0 b0 :: .data d0.localT fs dev :: done)).length ≤ _),
       List.take_append_of_le_length (by omega)]
   rw [htake]
-  obtain ⟨e, he, hfe⟩ := decode_cut_partial P o k g proto profile d0 b0 fs dev done it more j r.stop st1 hp hp2 hwf0 hg hkn
+  obtain ⟨e, he, hfe⟩ := decode_cut_partial P o k g proto profile d0 b0 fs dev done it more j stop st1 hp hp2 hwf0 hg hkn
     _ rfl hlen hfit hrun hj
   have hnp := C01.decodeSpec_never_panics P hwf o .full g (u8 k.size :: (hdrTail k proto profile
       (serialize (.defn d0 b0 :: .data d0.localT fs dev :: (done ++ it :: more))).length ++
-      (serialize (.defn d0 b0 :: .data d0.localT fs dev :: done) ++ (serializeItem it).take j))) r.stop
+      (serialize (.defn d0 b0 :: .data d0.localT fs dev :: done) ++ (serializeItem it).take j))) stop
   rw [he] at hnp ⊢
   have hfin := finalize_err o e.toOutcome
   have hst : e.toOutcome.st = e.st := by
@@ -269,6 +269,83 @@ theorem partial_file_on_cut (P : Profile) (hwf : ProfileWF P = true) (o : Opts) 
     have : e.toOutcome.st.file = some F1 := by rw [hst, hf, hF1]
     obtain ⟨F', h1, h2, _⟩ := finalize_content o e.toOutcome F1 this
     exact ⟨F', h1, h2⟩
+
+theorem partial_file_on_cut (P : Profile) (hwf : ProfileWF P = true) (o : Opts) (k : HdrKind) (g : Globals) (proto profile : Nat)
+    (d0 : DefMsg) (b0 : Bool) (fs dev : List Bytes) (done : List Item) (it : Item) (more : List Item) (j : Nat)
+    (r : Reader) (st1 : DecSt)
+    (hp : proto < 256) (hp2 : proto / 16 ≤ protoMajorMax)
+    (hwf0 : DefnWF d0 b0) (hg : d0.global = mnFileId) (hkn : P.known mnFileId = true)
+    (hlen : (serialize (.defn d0 b0 :: .data d0.localT fs dev :: (done ++ it :: more))).length < 4294967296)
+    (hfit : ItemsFitD P (List.replicate 16 none) (.defn d0 b0 :: .data d0.localT fs dev :: (done ++ it :: more)))
+    (hrun : runItems P (afterHeader k g proto profile
+      (serialize (.defn d0 b0 :: .data d0.localT fs dev :: (done ++ it :: more))).length).hdr g
+      (.defn d0 b0 :: .data d0.localT fs dev :: done)
+      (afterHeader k g proto profile
+      (serialize (.defn d0 b0 :: .data d0.localT fs dev :: (done ++ it :: more))).length).crc = .ok st1)
+    (hj : j < (serializeItem it).length)
+    (hdata : r.data = (frameBytesK k proto profile (serialize (.defn d0 b0 :: .data d0.localT fs dev :: (done ++ it :: more)))).take
+      (k.size + ((serialize (.defn d0 b0 :: .data d0.localT fs dev :: done)).length + j))) :
+    (decode P o .full g r).1.err.isSome = true ∧ (decode P o .full g r).1.panic = false ∧
+    (decode P o .full g r).1.st.glob = st1.glob ∧
+    ∀ F1, st1.file = some F1 → ∃ F', (decode P o .full g r).1.st.file = some F' ∧ F'.sameContent F1 := by
+  rw [decode_out_eq_spec]
+  exact partial_file_on_cut_spec P hwf o k g proto profile d0 b0 fs dev done it more j r.data r.stop st1 hp hp2 hwf0 hg hkn
+    hlen hfit hrun hj hdata
+
+/-- **The same for `DecodeChained`**: when the chain reaches a frame cut inside a record, it stops
+    with an error and returns the files decoded so far followed by the partial File of the cut
+    frame — the messages of its complete records, nothing else. (With `chained_concat`, C10: for a
+    chain of complete frames followed by a cut one, the result is the complete files, decoded one by
+    one, and then this partial File.) -/
+theorem chained_partial_on_cut (P : Profile) (hwf : ProfileWF P = true) (o : Opts) (k : HdrKind) (g : Globals) (proto profile : Nat)
+    (d0 : DefMsg) (b0 : Bool) (fs dev : List Bytes) (done : List Item) (it : Item) (more : List Item) (j : Nat)
+    (data : Bytes) (stop : Stop) (st1 : DecSt)
+    (hp : proto < 256) (hp2 : proto / 16 ≤ protoMajorMax)
+    (hwf0 : DefnWF d0 b0) (hg : d0.global = mnFileId) (hkn : P.known mnFileId = true)
+    (hlen : (serialize (.defn d0 b0 :: .data d0.localT fs dev :: (done ++ it :: more))).length < 4294967296)
+    (hfit : ItemsFitD P (List.replicate 16 none) (.defn d0 b0 :: .data d0.localT fs dev :: (done ++ it :: more)))
+    (hrun : runItems P (afterHeader k g proto profile
+      (serialize (.defn d0 b0 :: .data d0.localT fs dev :: (done ++ it :: more))).length).hdr g
+      (.defn d0 b0 :: .data d0.localT fs dev :: done)
+      (afterHeader k g proto profile
+      (serialize (.defn d0 b0 :: .data d0.localT fs dev :: (done ++ it :: more))).length).crc = .ok st1)
+    (hj : j < (serializeItem it).length)
+    (hdata : data = (frameBytesK k proto profile (serialize (.defn d0 b0 :: .data d0.localT fs dev :: (done ++ it :: more)))).take
+      (k.size + ((serialize (.defn d0 b0 :: .data d0.localT fs dev :: done)).length + j)))
+    (fuel i : Nat) (acc : List FileSt) :
+    (decodeChainedSpec P o (fuel + 1) i acc g data stop).err.isSome = true ∧
+    (decodeChainedSpec P o (fuel + 1) i acc g data stop).panic = false ∧
+    (decodeChainedSpec P o (fuel + 1) i acc g data stop).glob = st1.glob ∧
+    ∀ F1, st1.file = some F1 → ∃ F', (decodeChainedSpec P o (fuel + 1) i acc g data stop).files = acc ++ [F'] ∧
+      F'.sameContent F1 := by
+  obtain ⟨h1, h2, h3, h4⟩ := partial_file_on_cut_spec P hwf o k g proto profile d0 b0 fs dev done it more j data stop st1
+    hp hp2 hwf0 hg hkn hlen hfit hrun hj hdata
+  have hne : data ≠ [] := by
+    intro e
+    have hl : data.length = 0 := by rw [e]; rfl
+    rw [hdata, List.length_take, frameBytesK] at hl
+    simp only [List.length_append, frameHdr_length, List.length_cons, List.length_nil] at hl
+    have := k.size_cases
+    have hser : (serialize (.defn d0 b0 :: .data d0.localT fs dev :: done)).length + j ≤
+        (serialize (.defn d0 b0 :: .data d0.localT fs dev :: (done ++ it :: more))).length := by
+      have : (Item.defn d0 b0 :: Item.data d0.localT fs dev :: (done ++ it :: more)) =
+          (Item.defn d0 b0 :: Item.data d0.localT fs dev :: done) ++ it :: more := rfl
+      rw [this, serialize_append, serialize_cons it more]
+      simp only [List.length_append]; omega
+    omega
+  have hnc : ¬ ((decodeSpec P o .full g data stop).1.cleanEOF = true ∧ i ≠ 0) := by
+    intro hc
+    exact hne (spec_cleanEOF P o .full g data stop hc.1).1
+  rw [decodeChainedSpec]
+  simp only [h2, Bool.false_eq_true, ↓reduceIte]
+  cases he : (decodeSpec P o .full g data stop).1.err with
+  | none => rw [he] at h1; cases h1
+  | some c =>
+    simp only [hnc, ↓reduceIte]
+    refine ⟨by simp, by simp, h3, ?_⟩
+    intro F1 hF1
+    obtain ⟨F', hF', hs⟩ := h4 F1 hF1
+    exact ⟨F', by rw [hF'], hs⟩
 
 /-! ### non-vacuity -/
 
